@@ -35,7 +35,8 @@ ASSUMPTIONS = [
 LEADING = {("center", "left"), ("center", "outer"), ("right", "center"), ("inner", "center")}
 
 
-AXSPELL = ("X", ["X"], ("X",))  # a single axis may be given as str, list or tuple
+AXSPELL = (lambda: "X", lambda: ["X"], lambda: ("X",), lambda: iter(["X"]), lambda: (a for a in ("X",)), lambda: {"X": None}.keys())
+# a single axis may be given as str, list, tuple or any other iterable of names (also one that can be walked only once)
 
 
 def part_a(rec, li, n, seed, only=None):
@@ -81,7 +82,7 @@ def part_a(rec, li, n, seed, only=None):
                         kw["to"] = to
                     rec.case(("a", li, n, fr, to, rule, fv, supply, omit), (fr, to) in LEADING or n >= 3, sample=case)
                     try:
-                        r = g.cumsum(da, AXSPELL[(li + n) % 3], **kw)
+                        r = g.cumsum(da, AXSPELL[(li + n) % 6](), **kw)
                         if not np.array_equal(da.values, base):
                             rec.violation("single-axis", "input-array-modified", case, base, da.values)
                             continue
